@@ -30,6 +30,7 @@ func verifUF2(name string, x, y int) int
 func verifKnown(id, label string, cond bool)
 func verifOrderFree()
 func verifOutput(s string)
+func verifOrderFreeN(n int)
 func verifThorough() bool
 func verifShadow(sym, twin string) string
 func verifOrderInsertion()
@@ -201,6 +202,7 @@ func verifKnown(id, label string, cond bool) {}
 func verifOrderFree()                       {}
 func verifOrderDeviations() int            { return 0 }
 func verifOrderInsertion()                 {}
+func verifOrderFreeN(n int)                {}
 func verifThorough() bool                  { return verifPop("choice") == 1 }
 func verifShadow(sym, twin string) string  { return sym }
 func verifOutput(s string)                 { verifOutputs = append(verifOutputs, s) }
